@@ -218,7 +218,22 @@ def run(cx):
             ob.require(r == strip_identity(o.of_local(0)), "transport/same-config", f"setter applied to {show(r)}, returned config is {show(o.of_local(0))}", b.path)
         cb = cx.body("anemo::config::Config::transport_config")
         t = Origins(cb).of_local(0)
-        ob.require(any(x == ("fnptr", "anemo::config::QuicConfig::transport_config") for x in walk(t)) and mentions_field(t, "quic"), "config/transport", f"Config::transport_config = {show(t)}", cb.path)
+        okt = any(x == ("fnptr", "anemo::config::QuicConfig::transport_config") for x in walk(t)) and mentions_field(t, "quic")
+        st_ = strip_identity(t)
+        if not okt and st_[0] == "phi" and len(st_[1]) == 2:
+            # the written-out match: Some(quic) => quic.transport_config(), None => TransportConfig::default()
+            alts = [strip_identity(a) for a in st_[1]]
+            conv = [a for a in alts if a[0] == "call" and name_matches(a[1], "anemo::config::QuicConfig::transport_config") and mentions_field(a[2][0], "quic")
+                    and any(x[0] == "variant" and x[2] == "Some" for x in walk(a[2][0]))]
+            dflt = [a for a in alts if a[0] == "call" and name_matches(a[1], ("Default::default", "TransportConfig::default")) and not a[2]]
+            okt = len(conv) == 1 and len(dflt) == 1
+        if not okt and mentions_field(t, "quic"):
+            # `.map(|quic| quic.transport_config())`
+            for x in walk(t):
+                if x[0] == "agg" and x[1] == "closure" and x[2] in prog.bodies:
+                    r_ = strip_identity(Origins(prog.bodies[x[2]]).of_local(0))
+                    okt = okt or (r_[0] == "call" and name_matches(r_[1], "anemo::config::QuicConfig::transport_config") and any(y[0] == "param" for y in walk(r_)))
+        ob.require(okt, "config/transport", f"Config::transport_config = {show(t)}", cb.path)
         sb = cx.body("anemo::network::Builder::start")
         so = Origins(sb)
         tc = sb.calls_to("anemo::config::EndpointConfigBuilder::transport_config")
